@@ -635,6 +635,7 @@ func runC19(c *Ctx) {
 	checkHandshakeDecodersTotal(c, "R10")
 	// R11 (shared with C02.R2): an advertised extension is served only if its reply reaches the caller — under the request's id
 	c.withOnly("R2", "R11", func() { runC02(c) })
+	checkAdvertisedDataMatchesOpenSSH(c, "R12")
 }
 
 // checkDecodedOnlyIfConfigured (C19.R7): "advertised ⊆ served" is R5; this is the converse.  The extended-request
@@ -922,4 +923,103 @@ func checkHandshakeDecodersTotal(c *Ctx, rule string) {
 		}
 	}
 	c.check(n >= 2, rule, "bounds obligations in the handshake's decoders", "?", fmt.Sprintf("%d obligations", n), fmt.Sprintf("only %d obligations found in the handshake's decode cone", n))
+}
+
+// stringPairTable: name -> data of a package-level []struct{Name, Data string} literal.
+func stringPairTable(p *Program, varName string) (map[string]string, bool) {
+	pk := p.byPath[pkgSftp]
+	for _, f := range pk.Syntax {
+		for _, d := range f.Decls {
+			gd, ok := d.(*ast.GenDecl)
+			if !ok {
+				continue
+			}
+			for _, sp := range gd.Specs {
+				vs, ok := sp.(*ast.ValueSpec)
+				if !ok {
+					continue
+				}
+				for i, n := range vs.Names {
+					if n.Name != varName || i >= len(vs.Values) {
+						continue
+					}
+					cl, ok := vs.Values[i].(*ast.CompositeLit)
+					if !ok {
+						return nil, false
+					}
+					out := map[string]string{}
+					for _, el := range cl.Elts {
+						ecl, ok := el.(*ast.CompositeLit)
+						if !ok || len(ecl.Elts) < 2 {
+							return nil, false
+						}
+						vals := map[string]string{}
+						for j, e := range ecl.Elts {
+							key := []string{"Name", "Data"}[j%2]
+							if kv, ok := e.(*ast.KeyValueExpr); ok {
+								if id, ok := kv.Key.(*ast.Ident); ok {
+									key = id.Name
+								}
+								e = kv.Value
+							}
+							tv := pk.TypesInfo.Types[e]
+							if tv.Value == nil || tv.Value.Kind() != constant.String {
+								return nil, false
+							}
+							vals[key] = constant.StringVal(tv.Value)
+						}
+						out[vals["Name"]] = vals["Data"]
+					}
+					return out, true
+				}
+			}
+		}
+	}
+	return nil, false
+}
+
+// checkAdvertisedDataMatchesOpenSSH (C06.R15 / C19.R12): what the servers put into VERSION for an extension — name and
+// data (the extension's revision) — is what the sibling codec's openssh package says for the same name ("2" for
+// statvfs@openssh.com, "1" for the others): the two codecs produce the same VERSION bytes, and a client that looks at
+// the revision sees the one the server implements.
+func checkAdvertisedDataMatchesOpenSSH(c *Ctx, rule string) {
+	p := c.P
+	adv, ok := stringPairTable(p, "supportedSFTPExtensions")
+	if !ok {
+		c.und(rule, "advertised extension data", "sftp.go", "cannot read name and data from supportedSFTPExtensions")
+		return
+	}
+	ref := map[string]string{}
+	if p.Ossh != nil {
+		for name, mem := range p.Ossh.Members {
+			fn, isFn := mem.(*ssa.Function)
+			if !isFn || !strings.HasPrefix(name, "Extension") || fn.Blocks == nil || len(fn.Params) != 0 {
+				continue
+			}
+			res := newEvaluator(p).run(fn, nil, 0)
+			if res.kind != "return" || len(res.vals) != 1 || res.vals[0].k != evObject {
+				continue
+			}
+			n, d := res.vals[0].obj.fields["Name"], res.vals[0].obj.fields["Data"]
+			if n.k == evConst && d.k == evConst && n.c.Kind() == constant.String && d.c.Kind() == constant.String {
+				ref[constant.StringVal(n.c)] = constant.StringVal(d.c)
+			}
+		}
+	}
+	if len(ref) < 3 {
+		c.und(rule, "advertised extension data", "sftp.go", fmt.Sprintf("only %d extension pairs could be read from the openssh package", len(ref)))
+		return
+	}
+	var names []string
+	for n := range adv {
+		names = append(names, n)
+	}
+	sort.Strings(names)
+	for _, n := range names {
+		want, known := ref[n]
+		if !known {
+			continue
+		}
+		c.check(adv[n] == want, rule, "revision advertised for "+n, "sftp.go", fmt.Sprintf("%q, as in the openssh package", want), fmt.Sprintf("the servers advertise %s with data %q, the openssh package (and the OpenSSH description) say %q", n, adv[n], want))
+	}
 }
